@@ -516,7 +516,8 @@ def damage_bytes(data, dmg, fmt):
         return data[:rng.randrange(max(1, len(data)))]
     if how == "stray_text":
         k = rng.randrange(len(lines))
-        return b"\n".join(lines[:k] + [rng.choice([b"", b"%% note", b"  "])] + lines[k:])
+        junk = [b"", b"%% note", b"  "] + ([b")", b") )"] if fmt != "export" else [])
+        return b"\n".join(lines[:k] + [rng.choice(junk)] + lines[k:])
     # drop_word: remove the last field / word of one non-empty line
     cand = [i for i, l in enumerate(lines) if l.strip() and not l.startswith(b"#")]
     if not cand:
